@@ -30,7 +30,7 @@ EXPLANATION = ("R1: every array-indexed copy of the BLAKE3 round function is eva
                "three straight-line regions (before the block loop, loop body at a representative index, after the loop). "
                "HNr: the Rust hash4/hash8 kernels likewise as three MIR regions. "
                "The NEON C kernel (parsed for aarch64) goes through R1c/K4c/K5c/F8c/STc/TPc/HNc as well; the crate is type-checked for aarch64 (config neon1, thorough). "
-               "Residual: the wasm32 SIMD kernel (no wasm32 target here) and the MSVC .asm flavour (cannot be assembled here).")
+               "Residual: the wasm32 SIMD kernel (no wasm32 target here) (src/wasm32_simd.rs cannot be type-checked offline: build-std for wasm32 needs the uncached dlmalloc crate). The MSVC .asm flavour is decided through a mechanical MASM->GNU directive translation (masm2gas.py).")
 TRUSTED = ["rustc nightly MIR; clang JSON AST", "clang -c + llvm-objdump disassembly and engines/asmabi/asmsym.py instruction semantics (about 100 mnemonics, lane-exact; unknown forms fail closed)", "engines/rules/symexec.py term normal form", "engines/specmodel/blake3_spec.py G network",
            "vendor intrinsics _mm*_add_epi32 / xor / or / srli / slli / ror are lane-wise 32-bit operations"]
 ASSUMPTIONS = ["uint8_t / bool register arguments arrive zero-extended (as every mainstream compiler passes them; the sse2/sse41 kernels rely on it)", "stores through `out` do not alias the inputs read later in the same region"]
